@@ -1,11 +1,12 @@
-import LunarVerif.Proofs.C01Flat
+import LunarVerif.Proofs.C01Exact
 import LunarVerif.Proofs.C01Atomic
 import LunarVerif.Proofs.C01Verdict
 /-!
 # C01 — Fixed-window quotas never admit more than their limit per window
 
 Property theorems only (helpers live in `Proofs/C01.lean`).  Model: `Model/C01.lean`
-(`incLevel / allowedLevel / decLevel` = the critical sections `quota.Inc / Allowed / Dec`, with
+(`incLevel / allowedLevel / decLevel / refundLevel` = the critical sections `quota.Inc / Allowed / Dec /
+refund`, with
 `AtomicIncWindow` inlined; `Sys.run` = any interleaving of these atomic steps by any number of
 in-flight `Inc` / `Allowed` / `Dec` / limiter calls under a clock that only moves forward).
 Spec: `Spec/C01.lean` (windows reconstructed from the log of charged arrivals).
@@ -59,15 +60,21 @@ def exSched : List Act :=
 example : tally (2 * nsPerSec) (0, 0) (Sys.run exCfg (Sys.init (10 * nsPerSec + 5)) exSched).log
     = [⟨12, 1, 1⟩, ⟨10, 1, 1⟩] := by decide
 
-/-- Threads 0 and 3 were let through, thread 2 was refused, thread 1 is still in flight. -/
+/-- Threads 0 and 3 were let through, thread 2 was refused, thread 1 (refused by the parent, its charge
+    to the child given back) is about to start its `Allowed` walk. -/
 example : (Sys.run exCfg (Sys.init (10 * nsPerSec + 5)) exSched).threads.map (·.pc) =
-    [.done (some true), .allowed [(0, ⟨none, 1, 2 * nsPerSec, none⟩)], .done (some false), .done (some true)] := by
+    [.done (some true),
+     .allowed [(1, ⟨some 0, 2, 2 * nsPerSec, none⟩), (0, ⟨none, 1, 2 * nsPerSec, none⟩)],
+     .done (some false), .done (some true)] := by
   decide
 
-/-- The child level admitted two requests in its first window (= its max): request 2 was admitted by
-    the child and is still in flight towards the parent's `Allowed` when the schedule ends. -/
+/-- The child level: request 2's charge was given back (`refund`), so its first window ends with one
+    charge and one admission.  (Request 3 had been blocked while that charge was outstanding: under
+    interleaving only the bound is claimed, not exactness.) -/
 example : tally (2 * nsPerSec) (1, 0) (Sys.run exCfg (Sys.init (10 * nsPerSec + 5)) exSched).log
-    = [⟨12, 1, 1⟩, ⟨10, 2, 2⟩] := by decide
+    = [⟨12, 1, 1⟩, ⟨10, 1, 1⟩] := by decide
+
+example : LEv.refund (1, 0) 2 true ∈ (Sys.run exCfg (Sys.init (10 * nsPerSec + 5)) exSched).log := by decide
 
 /-- (ii) Spacing: in every schedule the reconstructed windows of a level start at least one window
     length apart (window lengths are whole seconds, as the configuration format makes them). -/
@@ -87,7 +94,7 @@ example : windowsOf (2 * nsPerSec) (0, 0) (Sys.run exCfg (Sys.init (10 * nsPerSe
     has exactly the effect and the answer of the API-level model `apiStep` (which the driver runs and
     the correspondence check compares with the real code). -/
 theorem api_call_is_atomic_schedule (cfg : Cfg) (s : Sys) (kind : Kind) (q : QId) (r : Rid) (h : Hdrs)
-    (hq : chain cfg q ≠ []) (n : Nat) (hn : 2 * (chain cfg q).length + 1 ≤ n) :
+    (hq : chain cfg q ≠ []) (n : Nat) (hn : 3 * (chain cfg q).length + 1 ≤ n) :
     (Sys.run cfg s (.spawn kind q r h :: List.replicate n (.step s.threads.length))).st
         = (apiStep cfg s.st ⟨kind, q, r, s.now, h⟩).1 ∧
     (Sys.run cfg s (.spawn kind q r h :: List.replicate n (.step s.threads.length))).threads[s.threads.length]?
@@ -116,16 +123,13 @@ example : (∀ o ∈ ([⟨.req, 1, 1, 5, []⟩, ⟨.inc, 0, 2, 5, []⟩, ⟨.all
 (`Inc`, `Allowed`, `Dec`, limiter call — generated interleavings of several requests' calls).
 `regular` = every request id arrives once. -/
 
-theorem init_fresh (ops : List Op) : ∀ r ∈ opArr ops, ∀ k, (St.init.at k).memo.lookup r = none := by
-  intro r _ k; rfl
-
 /-- (i) at the API layer: no reconstructed window of any quota of any chain lets more than `max` through. -/
 theorem api_bound (cfg : Cfg) (hwf : wellFormed cfg = true) (ops : List Op)
     (hreg : regular (observe cfg St.init ops) = true) :
     boundHolds cfg (observe cfg St.init ops) = true := by
   unfold regular at hreg
   rw [arrivals_observe] at hreg
-  have := (api_rel cfg (wellFormed_parents hwf) ops St.init SSt.init (LevelsRel.init cfg) (init_fresh ops) hreg).1
+  have := api_rel cfg (wellFormed_parents hwf) ops St.init SSt.init (LevelsRel.init cfg) (init_fresh ops) hreg
   exact boundHolds_of_rel cfg _ _ this
 
 /-- (ii) at the API layer, for *any* history with non-decreasing instants (the implementation's too). -/
@@ -133,20 +137,11 @@ theorem api_windows_spaced (cfg : Cfg) (hwf : wellFormed cfg = true) (h : Histor
     spacedHolds cfg h = true :=
   spacedHolds_of cfg (fun i c hi => (wellFormed_at hwf i c hi).2.2.1) h hm
 
-/-- (iii, weak reading) A refused limiter call met, in its chain, a quota whose current window had
-    already been *charged* `max` arrivals. -/
-theorem seq_exact_charged (cfg : Cfg) (hwf : wellFormed cfg = true) (ops : List Op)
-    (hreg : regular (observe cfg St.init ops) = true) :
-    exactCharged cfg (observe cfg St.init ops) = true := by
-  unfold regular at hreg
-  rw [arrivals_observe] at hreg
-  have := (api_rel cfg (wellFormed_parents hwf) ops St.init SSt.init (LevelsRel.init cfg) (init_fresh ops) hreg).2
-  simp [exactCharged, this]
-
-/-- (iii, strict reading) holds for quotas without parent: handled one at a time, a request is
-    refused only if its quota has already let `max` requests through in the current window. -/
-theorem seq_exact_flat (cfg : Cfg) (hwf : wellFormed cfg = true)
-    (hflat : ∀ (i : Nat) (c : QuotaCfg), cfg.quotas[i]? = some c → c.parent = none) (ops : List Op)
+/-- (iii) Exactness, for every well-formed configuration (any hierarchy, any grouping): handled one
+    at a time, a request is refused only if its quota or one of its ancestors has already **let through**
+    `max` requests in its current window.  (Holds since the repair of F01a: a quota gives its charge
+    back when a quota further up refuses the request.) -/
+theorem seq_exact_hier (cfg : Cfg) (hwf : wellFormed cfg = true) (ops : List Op)
     (hreg : regular (observe cfg St.init ops) = true) :
     exactStrict cfg (observe cfg St.init ops) = true := by
   unfold exactStrict
@@ -156,7 +151,7 @@ theorem seq_exact_flat (cfg : Cfg) (hwf : wellFormed cfg = true)
     simp only [Bool.not_true, Bool.false_or]
     unfold regular at hreg
     rw [arrivals_observe] at hreg
-    apply flat_exact cfg hflat (wellFormed_parents hwf) ops St.init SSt.init (LevelsRel.init cfg) (init_fresh ops) hreg
+    apply seq_exact_run cfg (wellFormed_parents hwf) ops St.init SSt.init (LevelsRel.init cfg) (init_fresh ops) hreg
     · intro o ho
       have hall : ∀ (ops : List Op) (st : St), sequential (observe cfg st ops) = true → ∀ o ∈ ops, o.kind = .req := by
         intro ops
@@ -172,9 +167,8 @@ theorem seq_exact_flat (cfg : Cfg) (hwf : wellFormed cfg = true)
       exact hall ops St.init hseq o ho
     · intro k w hw; simp [SSt.at_init] at hw
 
-/-- The whole judge predicate, with the class of finding F01a excluded. -/
-theorem c01_holds_partial (cfg : Cfg) (hwf : wellFormed cfg = true) (ops : List Op)
-    (hnot : f01a cfg (observe cfg St.init ops) = false) :
+/-- The whole judge predicate holds of every run of the model on a well-formed configuration. -/
+theorem c01_holds (cfg : Cfg) (hwf : wellFormed cfg = true) (ops : List Op) :
     holds cfg (observe cfg St.init ops) = true := by
   unfold holds
   cases hreg : regular (observe cfg St.init ops) with
@@ -183,50 +177,33 @@ theorem c01_holds_partial (cfg : Cfg) (hwf : wellFormed cfg = true) (ops : List 
     cases hm : monotone (observe cfg St.init ops) with
     | false => rfl
     | true =>
-      have hb := api_bound cfg hwf ops hreg
-      have hs := api_windows_spaced cfg hwf _ hm
-      have hc := seq_exact_charged cfg hwf ops hreg
-      simp only [Bool.and_self, Bool.not_true, Bool.false_or, hb, hs, Bool.true_and]
-      unfold exactStrict
-      unfold exactCharged at hc
-      unfold f01a at hnot
-      simp only [hreg, hm, Bool.true_and] at hnot
-      cases hseq : sequential (observe cfg St.init ops) with
-      | false => rfl
-      | true =>
-        simp only [hseq, Bool.not_true, Bool.false_or, Bool.true_and] at hc hnot ⊢
-        simp only [hc, Bool.and_true, Bool.not_eq_false'] at hnot
-        exact hnot
+      simp [api_bound cfg hwf ops hreg, api_windows_spaced cfg hwf _ hm, seq_exact_hier cfg hwf ops hreg]
 
-/-! ### F01a: the strict reading fails for hierarchies -/
+/-! ### Regression: the former F01a witness -/
 
 /-- Child quota 1: 5 per hour; parent quota 0: 2 per minute. -/
 def f01aCfg : Cfg := ⟨[⟨none, 2, 60 * nsPerSec, none⟩, ⟨some 0, 5, 3600 * nsPerSec, none⟩]⟩
 
-/-- Five requests in the first minute (two pass, three are refused by the parent but charged to the
-    child), one request at the start of the second minute. -/
+/-- Five requests in the first minute (two pass, three are refused by the parent), one request at the
+    start of the second minute. -/
 def f01aOps : List Op :=
   [⟨.req, 1, 1, 1700000000250000000, []⟩, ⟨.req, 1, 2, 1700000001000000000, []⟩,
    ⟨.req, 1, 3, 1700000002000000000, []⟩, ⟨.req, 1, 4, 1700000003000000000, []⟩,
    ⟨.req, 1, 5, 1700000004000000000, []⟩, ⟨.req, 1, 6, 1700000060000000000, []⟩]
 
-/-- The model's answers: pass, pass, refuse ×3, and the last request is refused too … -/
+/-- The refused requests no longer use up the child's hour: the request of the second minute passes
+    (before the repair it was refused with 2 of 5 let through; `corpus/C01/regress-F01a.ops`). -/
 example : (observe f01aCfg St.init f01aOps).map (·.ans) =
-    [some true, some true, some false, some false, some false, some false] := by decide
+    [some true, some true, some false, some false, some false, some true] := by decide
 
-/-- … although at that instant the parent's window is new (0 let through, max 2) and the child has
-    let only 2 of its 5 through: the strict reading of exactness fails on a one-at-a-time history of a
-    well-formed hierarchy (finding F01a; same witness as `corpus/C01/F01a.ops`). -/
-theorem seq_exact_hier_violation_witness :
-    ∃ (cfg : Cfg) (ops : List Op), wellFormed cfg = true ∧
-      regular (observe cfg St.init ops) = true ∧ monotone (observe cfg St.init ops) = true ∧
-      sequential (observe cfg St.init ops) = true ∧
-      ¬ (exactStrict cfg (observe cfg St.init ops) = true) ∧
-      f01a cfg (observe cfg St.init ops) = true :=
-  ⟨f01aCfg, f01aOps, by decide, by decide, by decide, by decide, by decide, by decide⟩
+/-- Non-vacuity of `seq_exact_hier`: this is a well-formed, regular, one-at-a-time history of a
+    hierarchy with refusals. -/
+example : wellFormed f01aCfg = true ∧ regular (observe f01aCfg St.init f01aOps) = true ∧
+    sequential (observe f01aCfg St.init f01aOps) = true ∧ monotone (observe f01aCfg St.init f01aOps) = true := by
+  decide
 
-/-- Non-vacuity of `seq_exact_flat` / `api_bound`: a flat quota (max 2 per 2 s) refuses the third
-    request of a window and lets the next one through exactly at `start + window`. -/
+/-- A flat quota (max 2 per 2 s) refuses the third request of a window and lets the next one through
+    exactly at `start + window`. -/
 example : (observe ⟨[⟨none, 2, 2 * nsPerSec, none⟩]⟩ St.init
     [⟨.req, 0, 1, 10 * nsPerSec + 7, []⟩, ⟨.req, 0, 2, 11 * nsPerSec, []⟩, ⟨.req, 0, 3, 12 * nsPerSec - 1, []⟩,
      ⟨.req, 0, 4, 12 * nsPerSec, []⟩]).map (·.ans) = [some true, some true, some false, some true] := by decide
